@@ -32,6 +32,13 @@ def dup(b):
     return b''.join(bytes([x, x]) for x in b)
 
 
+def drop(b):
+    return bytes(x for x in b if x not in b'xc')
+
+
+FILTERS = {'id': None, 'dup': dup, 'drop': drop}
+
+
 def drain(fd, settle=0.005):
     out = b''
     while True:
@@ -56,11 +63,33 @@ def replay(args):
     saved_poll = pexpect.pty_spawn.poll_ignore_interrupts
     saved_stdout = sys.stdout
     try:
+        umaster, uslave = pty.openpty()
+
+        class Out(object):
+            """a BUFFERED sys.stdout like the real one: what is written reaches the user's terminal at flush()"""
+            pending = b''
+
+            class buffer(object):
+                @staticmethod
+                def write(b):
+                    Out.pending += b
+                    return len(b)
+
+            @staticmethod
+            def write(s):
+                Out.pending += s.encode('latin-1') if isinstance(s, str) else s
+                return len(s)
+
+            @staticmethod
+            def flush():
+                if Out.pending:
+                    data, Out.pending = Out.pending, b''
+                    os.write(uslave, data)
+        sys.stdout = Out
         w = PtyWorld(workdir, use_poll=poll)
         # undo PtyWorld's interposition: interact needs its own
         w.close_interposition_only()
         child = w.child
-        umaster, uslave = pty.openpty()
         child.STDIN_FILENO = uslave
         child.STDOUT_FILENO = uslave
         # pending output at entry
@@ -76,21 +105,6 @@ def replay(args):
         keys, outp = conc(init['keys']), conc(init['outp'])
         plan = list(iters)
         state = {'kpos': 0, 'opos': 0, 'to_child': b'', 'exited': False}
-
-        class Out(object):
-            class buffer(object):
-                @staticmethod
-                def write(b):
-                    return os.write(uslave, b)
-
-            @staticmethod
-            def write(s):
-                return os.write(uslave, s.encode('latin-1') if isinstance(s, str) else s)
-
-            @staticmethod
-            def flush():
-                pass
-        sys.stdout = Out
 
         def inject():
             if plan:
@@ -130,8 +144,8 @@ def replay(args):
         pexpect.pty_spawn.select_ignore_interrupts = sel
         pexpect.pty_spawn.poll_ignore_interrupts = pol
         mode0 = termios.tcgetattr(uslave)
-        inf = dup if init['infil'] == 'dup' else None
-        outf = dup if init['outfil'] == 'dup' else None
+        inf = FILTERS[init['infil']]
+        outf = FILTERS[init['outfil']]
         esc = chr(29) if init['escmode'] == 'esc' else None
         raised = ''
         try:
@@ -139,6 +153,7 @@ def replay(args):
         except Exception as e:
             raised = '%s: %s' % (type(e).__name__, e)
         finally:
+            Out.flush()              # what the interpreter does at exit, at the latest
             sys.stdout = saved_stdout
             pexpect.pty_spawn.select_ignore_interrupts = saved_select
             pexpect.pty_spawn.poll_ignore_interrupts = saved_poll
